@@ -30,7 +30,7 @@ def reverse_bits(v, bits):
     """
     y = 0
     pos = bits - 1
-    while pos > 0:
+    while pos >= 0:
         y += (v & 1) << pos
         v >>= 1
         pos -= 1
